@@ -13,21 +13,39 @@ class Graph:
         self.edges = []                     # (u, act, v)
         self.alts = defaultdict(list)       # (u, op, argskey) -> list of edge indices
         self.seen = set()
+        self.keys = {}                      # interned state keys
+        self.states = {}                    # state key -> parsed state
+        self.acts = {}                      # action key -> (key, parsed action)
 
     def add(self, line):
         e = json.loads(line) if isinstance(line, str) else line
+        # state keys, parsed states and action keys are shared between the edges that mention them (a graph of 2M
+        # edges has a few 10^4 states: one string / one dict per state, not per edge)
         u = json.dumps(e["from"], separators=(",", ":"), sort_keys=True)
         v = json.dumps(e["to"], separators=(",", ":"), sort_keys=True)
+        u = self.keys.setdefault(u, u)
+        v = self.keys.setdefault(v, v)
+        to = self.states.setdefault(v, e["to"])
         a = e["act"]
         ak = json.dumps(a, separators=(",", ":"), sort_keys=True)
+        if ak in self.acts:
+            ak, a = self.acts[ak]
+        else:
+            self.acts[ak] = (ak, a)
         key = (u, ak, v)
         if key in self.seen:
             return
         self.seen.add(key)
         idx = len(self.edges)
-        self.edges.append((u, a, v, e["to"]))
+        self.edges.append((u, a, v, to))
         self.out[u].append(idx)
         self.alts[(u, a["op"], json.dumps(a["args"]))].append(idx)
+
+    def add_all(self, lines):
+        """Adds every line and empties the list on the way (the raw export of a large model is gigabytes)."""
+        lines.reverse()
+        while lines:
+            self.add(lines.pop())
 
     def is_open(self, idx):
         u, a, v, _ = self.edges[idx]
